@@ -686,6 +686,8 @@ class Evaluator:
                     return t[3][idx]
             if t[0] == "tuple" and idx < len(t[1]):
                 return t[1][idx]
+            if t[0] == "closure" and idx < len(t[2]):
+                return t[2][idx]      # a captured value read through the closure's environment
             if t[0] == "variant" and isinstance(t[1], tuple):
                 inner = t[1]
                 # ((next it) as Some).0 -> elem
@@ -856,6 +858,10 @@ class Evaluator:
             return args[0]
         if m == "clone" and len(args) == 1:
             return T("clone", args[0])
+        # arithmetic on (references to) primitive integers through the operator traits: `i + 1` with i: &usize
+        mo = re.match(r"^<&?(?:'\w+ )?(usize|u8|u16|u32|u64|isize|i8|i16|i32|i64) as std::ops::(Add|Sub|Mul)<&?(?:usize|u8|u16|u32|u64|isize|i8|i16|i32|i64)>>::(add|sub|mul)$", name)
+        if mo and len(args) == 2:
+            return T("binop", mo.group(2), strip(args[0]), strip(args[1]))
         if m == "contains" and len(args) == 2 and (is_slice_method(name, "contains") or "Vec" in name or "HashSet" in name or "BTreeSet" in name):
             return T("in", strip(args[1]), strip(args[0]))
         if m == "any" and len(args) == 2 and "Iterator" in name and isinstance(args[1], tuple) and args[1] and args[1][0] == "closure":
@@ -1327,6 +1333,11 @@ class Walker:
         body = self.body
         cb = _closure_body(body.facts, name)
         env0 = {i + 1: a for i, a in enumerate(args)}
+        if "{closure" in name and len(args) == 2 and isinstance(args[1], tuple) and args[1] and args[1][0] == "tuple":
+            # calling a closure: (environment, (a, b, ..)) -- the argument tuple is spread over the parameters
+            env0 = {1: args[0]}
+            for i, a in enumerate(args[1][1]):
+                env0[i + 2] = a
         sub = Walker(cb, max_paths=self.max_paths, inline=self.inline, depth=self.depth + 1)
         cpaths = sub.walk(0, env=env0)
         tag = ("inl", name, n)
@@ -1589,6 +1600,26 @@ def subst(t, mapping):
     return new
 
 
+def _closure_fields(t, facts):
+    """field(<closure value>, upvar) -> the captured term (after a closure value was substituted for an environment)"""
+    if not isinstance(t, tuple) or not t:
+        return t
+    new = tuple(_closure_fields(x, facts) if isinstance(x, tuple) else x for x in t)
+    if len(new) == 3 and new[0] == "field" and isinstance(new[1], tuple) and new[1] and new[1][0] == "closure":
+        clos = new[1]
+        idx = None
+        if str(new[2]).isdigit():
+            idx = int(new[2])
+        elif facts is not None and clos[1] in facts.bodies:
+            names = _closure_body(facts, clos[1]).upvar_names
+            for k_, nm in names.items():
+                if nm == new[2]:
+                    idx = k_
+        if idx is not None and idx < len(clos[2]):
+            return clos[2][idx]
+    return new
+
+
 def closure_upvar_map(closure_body, closure_term):
     """mapping from the closure body's upvar terms to the captured terms at the construction site"""
     m = {}
@@ -1606,22 +1637,34 @@ def walk_closure(facts_bodies, closure_term, param_terms=None):
     """walk a closure body; returns (paths, body) with upvars replaced by the captured terms and
     parameters (from index 2) replaced by param_terms"""
     cb = facts_bodies(closure_term[1])
-    paths = Walker(cb).walk(0)
+    # closures of the same function that this one calls (|k| .. is_held(k)) are inlined
+    sibs = set()
+    if cb.facts is not None and "::{closure" in closure_term[1]:
+        parent = closure_term[1].split("::{closure", 1)[0]
+        sibs = {p for p in cb.facts.bodies if p.startswith(parent + "::{closure") and p != closure_term[1]}
+    paths = Walker(cb, inline=sibs).walk(0) if sibs else Walker(cb).walk(0)
     m = closure_upvar_map(cb, closure_term)
     if param_terms:
         for i, pt in enumerate(param_terms):
             m[T("param", i + 2, cb.dbg.get(i + 2, ""))] = pt
     out = []
+    facts = cb.facts
+
+    def sb(x):
+        if not isinstance(x, tuple):
+            return x
+        y = subst(x, m)
+        return _closure_fields(y, facts) if sibs else y
     for p in paths:
         evs = []
         for e in p.events:
             ne = Ev(e.kind, e.blk, e.a, e.b, e.c, e.d, e.span)
-            ne.a = subst(e.a, m) if isinstance(e.a, tuple) else e.a
-            ne.b = subst(e.b, m) if isinstance(e.b, tuple) else e.b
-            ne.c = subst(e.c, m) if isinstance(e.c, tuple) else e.c
-            ne.d = subst(e.d, m) if isinstance(e.d, tuple) else e.d
+            ne.a = sb(e.a)
+            ne.b = sb(e.b)
+            ne.c = sb(e.c)
+            ne.d = sb(e.d)
             evs.append(ne)
-        oc = tuple(subst(x, m) if isinstance(x, tuple) else x for x in p.outcome)
+        oc = tuple(sb(x) for x in p.outcome)
         out.append(PathResult(evs, oc, p.env, p.blocks))
     return out, cb
 
